@@ -84,7 +84,10 @@ def gen_case(rng, cid, ops=OPS, nmax=5, maxelems=120, ev="Stencil"):
         to = NONE if mode == "none" else S(scalar_to) if mode == "s" else M(to_pairs)
         if mode == "m":
             rng.shuffle(to["v"])
-        args = {"data": gen.rand_data(rng, dims_shape), "axis": [a["name"] for a in opaxes], "to": to,
+        data = gen.rand_data(rng, dims_shape)
+        if rng.random() < 0.25:
+            data["dtype"] = rng.choice(["float32", "int64", "int32"])
+        args = {"data": data, "axis": [a["name"] for a in opaxes], "to": to,
                 "boundary": gen.rand_tagged(rng, axnames, gen.RULES, partial=True),
                 "fill_value": gen.rand_tagged(rng, axnames, [-3, -2, -1, 0, 1, 2, 3], partial=True)}
         return {"id": cid, "ev": ev, "op": rng.choice(ops),
